@@ -38,7 +38,7 @@ def tasks(tier):
     for fam, tg, sh in (('scalar', [0, 1], [0, 1, 2, 3, 4]), ('array', [0, 2, 3], [0, 4, 5, 6])):
         for nn in range(1, n + 1):
             for k0 in range(4):
-                if fam == 'array' and nn == n and k0 != 0 and tier == 'quick': continue      # quick: the longest array programs start with the `<--`
+                if fam == 'array' and nn == n and k0 != 0: continue      # the longest array programs start with the `<--`
                 if nn == 1: ts.append({'n': nn, 'k0': k0, 'family': fam, 'tgts': tg, 'shapes': sh})
                 else: ts += [{'n': nn, 'k0': k0, 'family': fam, 'tgts': tg, 'shapes': sh, 't0': t0, 's0': s0} for t0 in tg for s0 in sh]
     return ts
